@@ -175,16 +175,21 @@ func c15Perms(n int) [][]int {
 	return c15MultisetPerms(f)
 }
 
-func c15Product(dims []int) [][]int { // lexicographic
+func c15Product(dims []int) [][]int { // lexicographic; only the first c15Cap+1 members (enough for every comparison made)
 	res := [][]int{}
 	cur := []int{}
+	for _, d := range dims {
+		if d < 1 {
+			return res
+		}
+	}
 	var rec func(i int)
 	rec = func(i int) {
 		if i == len(dims) {
 			res = append(res, c15Copy(cur))
 			return
 		}
-		for c := 0; c < dims[i]; c++ {
+		for c := 0; c < dims[i] && len(res) <= c15Cap; c++ {
 			cur = append(cur, c)
 			rec(i + 1)
 			cur = cur[:len(cur)-1]
@@ -764,6 +769,11 @@ func c15Gen(r *rand.Rand, tier string, emit func(string)) {
 		for k := 0; k <= 4; k++ {
 			emit(fmt.Sprintf("it mscomb %d%s", k, l))
 		}
+	}
+	// factors whose product does not fit an int (only the first c15Cap members are enumerated on both sides)
+	for _, l := range []string{" 4611686018427387904 4", " 4294967296 4294967296", " 2097152 2097152 4194304", " 3 9223372036854775807", " 9223372036854775807 2 0"} {
+		emit("it prod" + l)
+		emit("it rpprod A" + l)
 	}
 	cases := 4000
 	if tier == "thorough" {
